@@ -89,8 +89,17 @@ def run(ctx):
             with_src = False
         src = None
         if with_src:
-            m = n if rng.chance(4, 5) else max(1, n + rng.choice([-1, 1]))
-            src = [rng.choice(pool) for _ in range(m)]
+            # docs/editor.md: "The RPUs must have the same length, after the `remove` pass"
+            rem = set()
+            for r in facts.get("remove", []):
+                pr = parse_range(r)
+                if pr:
+                    rem.update(k for k in range(pr[0], pr[1] + 1) if k < n)
+                elif r.isdigit() and int(r) < n:
+                    rem.add(int(r))
+            left = n - len(rem)
+            m = rng.choice([left, left, left, n, max(1, left + rng.choice([-1, 1]))])
+            src = [rng.choice(pool) for _ in range(max(0, m))] or None
         cases.append((i, work, rpus, cfg_json, src, compact, facts))
         lines.append("editor %s %s %s" % (compact, ",".join(hx(b) for b in rpus), ",".join(hx(b) for b in src) if src else "-"))
     try:
@@ -150,6 +159,40 @@ def run(ctx):
                                              "observed": "frame outside every range changed", "expected": "byte-identical",
                                              "shape": "frame-locality"})
                             break
+            # level replacement from the source list: the k-th remaining frame takes the listed levels of source
+            # entry k (docs/editor.md) — judged on L5/L6 (single-instance levels present in most RPUs)
+            if src is not None and ok_ranges and "dups" not in facts and len(src) != len(out):
+                ctx.oracle_fail({"op": "editor", "input": l[:6000], "config": cfg_json,
+                                 "observed": "accepted a source list of %d RPUs for %d remaining frames" % (len(src), len(out)),
+                                 "expected": "an error (docs/editor.md: same length after the remove pass)", "shape": "source-length"})
+            if src is not None and ok_ranges and "dups" not in facts and cfg_json.get("rpu_levels"):
+                lv = [x for x in cfg_json["rpu_levels"] if x in (5, 6)]
+                if lv and len(out) == len(src):
+                    pj, _, _ = common.run_lines(common.LIBCASE, ["nalu.json 7c01" + o.hex() for o in out] + ["rpu.json " + hx(b) for b in src])
+                    oj, sj = pj[:len(out)], pj[len(out):]
+
+                    def blk(line, level):
+                        if not line.startswith("ok {"):
+                            return "unparsed"
+                        dmj = json.loads(line[3:]).get("vdr_dm_data") or {}
+                        for b in (dmj.get("cmv29_metadata") or {}).get("ext_metadata_blocks", []):
+                            if "Level%d" % level in b:
+                                return b["Level%d" % level]
+                        return None
+                    for k2 in range(len(out)):
+                        for level in lv:
+                            want = blk(sj[k2], level)
+                            got = blk(oj[k2], level)
+                            # (a source entry without a block of that level replaces nothing)
+                            if want is None or want == "unparsed" or got == "unparsed" or not sj[k2].startswith("ok {") or "cmv29_metadata" not in (json.loads(oj[k2][3:]).get("vdr_dm_data") or {}):
+                                continue
+                            ctx.count("source-alignment-checked")
+                            if want != got:
+                                ctx.oracle_fail({"op": "editor", "input": l[:6000], "config": cfg_json, "frame": k2,
+                                                 "observed": "L%d of remaining frame %d: %s" % (level, k2, json.dumps(got)[:200]),
+                                                 "expected": "that of source entry %d: %s" % (k2, json.dumps(want)[:200]),
+                                                 "shape": "source-alignment"})
+                                break
             # --- metamorphic oracles on the real tool (no model involved) ----------------------
             removed_ok = ok_ranges
             kept = [k for k in range(n) if k not in removed]
